@@ -15,7 +15,7 @@ func c13Cfg() *DeclCfg {
 		{K: KString, W: WSlice}, {K: KInt, W: WSlice}, {K: KString, W: WPtr}, {K: KString, W: WMap, MapKey: KString}, {K: KInt, W: WMap, MapKey: KString}, {K: KString, W: WFunc1}, {W: WFunc0}, {K: KInt, W: WFunc1Err}}
 	return &DeclCfg{
 		MaxDepth: 2, MaxFan: 2, PCmds: 65, Types: types, OptsMin: 2, OptsMax: 4, SubGroupsMax: 2, NestMax: 2,
-		PInline: 25, PCmdTwin: 20, PInitial: 25, PNoIni: 12, PDupField: 25, PNamespace: 40, PShortOnly: 15, PLongOnly: 15, PDefault: 20, PBase: 20, PHidden: 5, PNoUnquote: 10, PChoices: 8,
+		PInline: 25, PNameless: 6, PCmdTwin: 20, PInitial: 25, PNoIni: 12, PDupField: 25, PNamespace: 40, PShortOnly: 15, PLongOnly: 15, PDefault: 20, PBase: 20, PHidden: 5, PNoUnquote: 10, PChoices: 8,
 		PExec: 30, PByTag: 50, PSubOptional: 100, PAliases: 10, PIniName: 35, NonASCII: true,
 		ParserOpts: []flags.Options{0, flags.HelpFlag, flags.PassDoubleDash}, NsDelims: []string{"", ".", "-"},
 	}
